@@ -1,8 +1,10 @@
 PROP = {
     "id": "C27",
-    "coq_targets": ["Properties/C27.vo", "Extract/C27Extract.vo"],
+    "coq_targets": ["Properties/C27.vo", "Properties/BMPStack.vo", "Extract/C27Extract.vo"],
     "properties_file": "Properties/C27.v",
-    "theorems": ["C27_no_panic", "C27_serve_returns", "C27_fuel", "C27_alloc_proportional"],
+    "more_properties_files": ["Properties/BMPStack.v"],
+    "theorems": ["C27_no_panic", "C27_serve_returns", "C27_fuel", "C27_alloc_proportional",
+                 "BMPStack_no_panic", "BMPStack_alloc_proportional", "BMPStack_mirror"],
     "allowed_axioms": [],
     "harness": "c27",
     "modelrun": {"name": "c27", "extracted": ["c27_model"], "driver": "ocaml/c27/c27_run.ml"},
